@@ -161,7 +161,17 @@ func (g *Gen) Text() string { return core.GenText(g.R) }
 // ParamsFor builds request parameters with stress text in the client-declared fields.
 func (g *Gen) ParamsFor(logname string, ns string, hard bool, algo int) *csr.ReqParam {
 	ip := core.Pick(g.R, "10.0.0.7", "::1", "2001:db8::1", "192.168.1.254", "fe80::1%eth0", g.Text())
-	return Params(ns, logname, g.Text(), g.Text(), ip, g.Text(), hard, algo, false)
+	user, host, trans := g.Text(), g.Text(), g.Text()
+	// client-declared values of unusual length
+	switch g.R.Intn(12) {
+	case 0:
+		user = core.GenLongText(g.R)
+	case 1:
+		host = core.GenLongText(g.R)
+	case 2:
+		user, host, trans = core.GenLongText(g.R), core.GenLongText(g.R), core.GenLongText(g.R)
+	}
+	return Params(ns, logname, user, host, ip, trans, hard, algo, false)
 }
 
 // Store0 builds pre-existing identities: plain keys, foreign certificates and
